@@ -35,6 +35,12 @@ type Solver struct {
 	Queries [3]int64
 	Time    time.Duration
 	Errors  int
+	// transcript of the open scopes (declarations and assertions of the current path), so that a
+	// query the solver gave up on can be retried by a fresh process with a longer time limit
+	hist    []string
+	marks   []int
+	Retries int64
+	Rescued int64
 }
 
 func NewSolver(bin string, args []string, logPath string) (*Solver, error) {
@@ -97,6 +103,9 @@ func (s *Solver) Close() {
 func (s *Solver) Send(line string) {
 	s.buf.WriteString(line)
 	s.buf.WriteByte('\n')
+	if s.depth > 0 && !strings.HasPrefix(line, "(check-sat") && !strings.HasPrefix(line, "(get-value") {
+		s.hist = append(s.hist, line)
+	}
 }
 
 func (s *Solver) flush() {
@@ -111,8 +120,65 @@ func (s *Solver) flush() {
 	io.WriteString(s.in, str)
 }
 
-func (s *Solver) Push() { s.Send("(push 1)"); s.depth++ }
-func (s *Solver) Pop()  { s.Send("(pop 1)"); s.depth-- }
+func (s *Solver) Push() {
+	s.marks = append(s.marks, len(s.hist))
+	s.depth++
+	s.Send("(push 1)")
+}
+
+func (s *Solver) Pop() {
+	s.Send("(pop 1)")
+	s.depth--
+	if n := len(s.marks); n > 0 {
+		s.hist = s.hist[:s.marks[n-1]]
+		s.marks = s.marks[:n-1]
+	}
+	if s.depth <= 0 {
+		s.hist, s.marks = s.hist[:0], s.marks[:0]
+	}
+}
+
+// retryFresh re-decides the current query (the transcript of the open scopes) in a fresh solver
+// process with a longer time limit. Used when the incremental solver answered unknown, which on a
+// loaded machine is usually its wall-clock limit.
+func (s *Solver) retryFresh(nvars int) (SatResult, string) {
+	var sb strings.Builder
+	sb.WriteString("(set-option :print-success false)\n(set-option :produce-models true)\n")
+	if strings.Contains(s.bin, "z3") {
+		fmt.Fprintf(&sb, "(set-option :timeout %d)\n", retryTimeoutMs)
+	}
+	sb.WriteString("(set-logic QF_BV)\n")
+	for _, l := range s.hist {
+		sb.WriteString(l)
+		sb.WriteByte('\n')
+	}
+	sb.WriteString("(check-sat)\n")
+	if nvars > 0 {
+		sb.WriteString("(get-value (")
+		for i := 0; i < nvars; i++ {
+			fmt.Fprintf(&sb, "v%d ", i)
+		}
+		sb.WriteString("))\n")
+	}
+	cmd := exec.Command(s.bin, s.args...)
+	cmd.Stdin = strings.NewReader(sb.String())
+	out, _ := cmd.Output()
+	txt := strings.TrimSpace(string(out))
+	first := txt
+	rest := ""
+	if i := strings.IndexByte(txt, '\n'); i >= 0 {
+		first, rest = strings.TrimSpace(txt[:i]), txt[i+1:]
+	}
+	switch first {
+	case "sat":
+		return Sat, rest
+	case "unsat":
+		return Unsat, ""
+	}
+	return Unknown, ""
+}
+
+var retryTimeoutMs = 240000
 
 // readSexp reads one complete s-expression or atom line from the solver.
 func (s *Solver) readSexp() (string, error) {
@@ -170,6 +236,20 @@ func (s *Solver) Check(nvars int, widths []uint8) (SatResult, []uint64) {
 		s.Errors++
 		r = Unknown
 	}
+	if r == Unknown && len(s.hist) > 0 {
+		s.Retries++
+		if r2, vals := s.retryFresh(nvars); r2 != Unknown {
+			s.Rescued++
+			s.Queries[r2]++
+			if s.logf != nil {
+				s.logf.WriteString("; RESULT " + r2.String() + "\n")
+			}
+			if r2 != Sat || nvars == 0 {
+				return r2, nil
+			}
+			return r2, parseModel(vals, nvars)
+		}
+	}
 	s.Queries[r]++
 	if s.logf != nil {
 		// verdict of the deciding solver, read back by the solver differential (xcheck.go)
@@ -192,6 +272,10 @@ func (s *Solver) Check(nvars int, widths []uint8) (SatResult, []uint64) {
 		s.Errors++
 		return Unknown, nil
 	}
+	return r, parseModel(resp, nvars)
+}
+
+func parseModel(resp string, nvars int) []uint64 {
 	model := make([]uint64, nvars)
 	// tokens: ((v0 #x..) (v1 #b..))
 	toks := strings.FieldsFunc(resp, func(r rune) bool { return r == '(' || r == ')' || r == ' ' || r == '\n' || r == '\t' })
@@ -215,7 +299,7 @@ func (s *Solver) Check(nvars int, widths []uint8) (SatResult, []uint64) {
 		}
 		model[idx] = v
 	}
-	return r, model
+	return model
 }
 
 func (s *Solver) restart() {
